@@ -151,7 +151,7 @@ class ResourceScenario(ScenarioData):
                         self.scoreboard[i] = val | (leave_type << 2)
 
         # Apply resource-specific leaves
-        res_leaves = self.property.get("leaves", self.scenarioIdx)
+        res_leaves = self._allLeaves()
         if res_leaves:
             for leave in res_leaves:
                 if hasattr(leave, "interval"):
@@ -167,6 +167,25 @@ class ResourceScenario(ScenarioData):
                         else:
                             leave_type = leave.type_idx if hasattr(leave, "type_idx") else 0
                             self.scoreboard[i] = leave_type << 2
+
+    def _allLeaves(self) -> list[Any]:
+        """Leaves of this resource and of every enclosing resource group.
+
+        A resource that states leaves of its own does not receive a copy of its group's list
+        (list attributes are not merged on inheritance), but the group's leaves still apply to
+        all of its members.
+        """
+        cached: Optional[list[Any]] = getattr(self, "_allLeavesCache", None)
+        if cached is None:
+            cached = []
+            node = self.property
+            while node is not None:
+                for leave in node.get("leaves", self.scenarioIdx) or []:
+                    if not any(leave is known for known in cached):
+                        cached.append(leave)
+                node = node.parent
+            self._allLeavesCache = cached
+        return cached
 
     def calcCriticalness(self) -> None:
         """
@@ -551,7 +570,7 @@ class ResourceScenario(ScenarioData):
                     return False
 
         # Check resource-level leaves/vacations
-        leaves = self.property.get("leaves", self.scenarioIdx)
+        leaves = self._allLeaves()
         if leaves:
             for leave in leaves:
                 if hasattr(leave, "interval") and leave.interval and leave.interval.start <= date < leave.interval.end:
